@@ -10,6 +10,7 @@ LEAN_MODULES = ['MV.Props.C01', 'MV.Props.C01b']
 LEAN_HELPERS = ['MV.Lemmas.Shift', 'MV.Lemmas.Ext', 'MV.Lemmas.Scale', 'MV.Model.Pitch', 'MV.Model.Rel', 'MV.Model.Basic', 'MV.Model.Types']
 DRIVERS = ['C01']
 GEN = ['Tables', 'Library']
+SRC_TIE = ['SrcPitch']   # py2lean source images proved equal to the model (MV/Props/Tie*.lean)
 RULE = ('stratified (chord, note) pairs: every mode x degree x base figure at least once, random tonic/octaves, '
         'modifiers, all five non-relative systems, accidentals and per-note modes; a case is non-trivial when the '
         'note sounds (kind in s h c b a d); distinct = distinct request line')
@@ -196,6 +197,9 @@ def correspondence(ctx):
         cases.append({'line': sx('extp', enc), 'impl': py_res(lambda: c.chord_extension_pitches, show_ints), 'input': chord_inp(c, text),
                       'bucket': 'op=extp'})
     ctx.compare('chord', 'C01', cases)
+    # kernel-level streams of the source tie (DESIGN §9.6)
+    import srctie
+    srctie.run(ctx, SRC_TIE)
 
 
 def oracle(ctx):
